@@ -2,4 +2,4 @@ From Coq Require Import Extraction ExtrOcamlBasic ExtrOcamlString.
 From Oras Require Import Base.Prelude Generated.GC05 Model.Verify.
 Extraction Language OCaml.
 Extraction "xc05.ml" ev_weight stream valid_digest new_vr vr_read vr_verify read_all copy_buffer
-  mem_push mem_get limited_push oci_push oci_get oci_exists file_push file_exists file_fetch proxy_fetch explore visible_blobs thread_results ingest_files explore_m mthread_results.
+  mem_push mem_get limited_push oci_push oci_get oci_exists file_push file_exists file_fetch proxy_fetch explore visible_blobs thread_results ingest_files explore_m mthread_results mem_fetch_all oci_fetch_all file_fetch_all copy_buffer_w file_push_name resolve_name explore_f fthread_results file_push_opt default_opts.
